@@ -154,4 +154,6 @@ def extra(tier, seed):
     }
     for fam, bound in bounds.items():
         out.append(run_native(names[fam], 'c16_native.py', [tier, str(seed), fam], bound=bound))
+    out.append(run_native('C16:bounded:catalogs-sharing-a-controller-follow-by-name', 'c16_shared_order.py', [],
+                          bound='2-3 alternatives, every order of the member names of a second catalog sharing the controller, list and from_dict construction'))
     return out
